@@ -62,7 +62,8 @@ def wireCase (inp impl : String) : CaseOut :=
     | some batch =>
       let env := encode wireCodec batch
       let (ds, o) := decode wireCodec env
-      let envS := "T=" ++ String.intercalate "|" env.typeNames ++
+      let envS := if (transmit wireCodec batch).isNone then "sent=0" else
+        "T=" ++ String.intercalate "|" env.typeNames ++
         ";G=" ++ String.intercalate "." (env.targets.map pidIndex) ++
         ";S=" ++ String.intercalate "." (env.senders.map pidIndex) ++
         ";M=" ++ String.intercalate "/" (env.messages.map fun m => s!"{m.typeIdx}.{m.senderIdx}.{m.targetIdx}")
